@@ -33,7 +33,9 @@ RULE = (
     "per case): fractions not summing to 1, length mismatch, unknown phase name, "
     "out-of-range phase ordinal, unknown fabric letter, missing [input], missing timestep, "
     "non-numeric timestep / strain_final, output phase not simulated / unknown, wrong number "
-    "of disl_coefficients. Non-trivial: a configuration omitting >=1 optional key (parse "
+    "of disl_coefficients. Sequences: 2..4 configurations parsed in one process with every "
+    "returned dictionary overwritten in place in between. "
+    "Non-trivial: a configuration omitting >=1 optional key (parse "
     "oracle); every fault case; distinct = distinct canonical JSON."
 )
 ASSUMPTIONS = [
